@@ -146,6 +146,10 @@ def make_image(w, h, mname):
             arr = ((base.astype(np.int64) * 70001 + 12345) % 2000000000 + 1).astype(dt)
         else:
             arr = (base * 0.25 + 0.5).astype(dt)
+            if np.dtype(dt).itemsize >= 4 and w >= 300 and h >= 300:
+                # +-inf are defined values: a block of them covering a whole tile's share of the image
+                arr[:260, :260] = np.inf
+                arr[-40:, -40:] = -np.inf
     elif dt == "u1":
         arr = np.stack([(base * (k + 1)) % 256 for k in range(ch)], axis=-1).astype("u1")
         if ch == 4:
